@@ -50,6 +50,12 @@ def table_texts():
         ("paren-minus", "{ RdV = (RsV)-RtV; }"), ("paren-minus-unary", "{ RdV = (RsV) - -RtV; }"), ("minus-minus", "{ RdV = RsV - -RtV; }"),
         ("plus-minus", "{ RdV = RsV + -RtV; }"), ("not-not", "{ RdV = !!RsV; }"), ("neg-tilde", "{ RdV = -~RsV; }"),
         ("cast-paren", "{ RdV = (int32_t)(RsV)-RtV; }"),
+        # keyword type names are spelled like identifiers too
+        ("cast-int-unary", "{ RdV = (int) -RsV; }"), ("cast-int-unary-mul", "{ RdV = (int) -RsV * RtV; }"),
+        ("cast-unsigned-unary", "{ RdV = (unsigned) -RsV; }"), ("cast-unsigned-int-unary", "{ RdV = (unsigned int) -RsV; }"),
+        ("cast-int-plus", "{ RdV = (int) +RsV; }"), ("minus-cast-int-unary", "{ RdV = RtV - (int) -RsV; }"),
+        ("cast-size-unary", "{ RdV = (size4s_t) -RsV; }"), ("cast-size-u-unary", "{ RddV = (size8u_t) -1; }"),
+        ("cast-int-not", "{ RdV = (int) !RsV; }"), ("cast-int-tilde", "{ RdV = (int) ~RsV; }"),
         ("minus-cast-unary", "{ RdV = RsV - (int32_t)-RtV; }"), ("paren-minus-cast-unary", "{ RdV = (RsV) - (int32_t)-RtV; }"),
         ("plus-cast-plus", "{ RdV = RsV + (int8_t)+RtV; }"), ("mul-cast-unary", "{ RdV = RsV * (int32_t)-RtV; }"),
         ("minus-cast-not", "{ RdV = RsV - (int32_t)~RtV; }"), ("cast-unsigned-int", "{ RdV = (unsigned int)RsV + 1; }"),
